@@ -49,7 +49,7 @@ func (check) Cases(tier string) int {
 }
 
 func (check) Rule() string {
-	return "one sequence per case: 65% key=value flag (1-10 arguments over the keys a,b,c,l,a.b,a.c,l.0,l.1,l.0.k,c.0.b, a previous key reused w.p. 1/2; values in every parse.Value syntax: uint/int/float/hex, bool words, null, bare words, single and double quoted, comma lists, [..] lists, {..} objects, nested, padded, trailing commas; empty value; bare key; malformed arguments (table + truncations of valid values) at a random position and w.p. 1/4 after it; autoBool off in 15% so that a bare key is the flag's own malformed form; 15% driven through a real flag.FlagSet/ConfigVar), 20% file flag (1-5 temp files .yaml/.yml/.json/.hjson holding JSON renderings of correlated dict trees, 1 in 4 sequences spell members of top-level dictionaries as dotted keys; a missing file / unknown extension / truncated document / scalar document as the failing argument), 15% cfgutil.Collector directly (Add(cfg,nil)/Add(nil,nil)/Add(nil,err) histories, GetOptions). Option sets: PathSep(\".\") +- one of {ReplaceValues, ReplaceArrValues, AppendValues, PrependValues} +- VarExp (6% of key=value cases, never with ReplaceValues; primitive-valued references to keys of the initial config only; half of them with a Resolve option that alone knows ${ext}); initial config nil or a small dictionary. After EVERY Set/Add the config is read back and compared. Non-trivial = at least two accepted settings before the first failure whose keys are equal or one a path prefix of the other (files/collector: share a top-level key or both carry a list); distinct = distinct (mode, option set, autoBool, initial config, argument texts)."
+	return "one sequence per case: 65% key=value flag (1-10 arguments over the keys a,b,c,l,a.b,a.c,l.0,l.1,l.0.k,c.0.b, a previous key reused w.p. 1/2, an identical earlier argument string repeated w.p. 1/6; values in every parse.Value syntax: uint/int/float/hex, bool words, null, bare words, single and double quoted, comma lists, [..] lists, {..} objects, nested, padded, trailing commas; empty value; bare key; malformed arguments (table + truncations of valid values) at a random position and w.p. 1/4 after it; autoBool off in 15% so that a bare key is the flag's own malformed form; 15% driven through a real flag.FlagSet/ConfigVar), 20% file flag (1-5 temp files .yaml/.yml/.json/.hjson holding JSON renderings of correlated dict trees, every argument after the first names an earlier path again w.p. 1/3, half of the sequences put a differing non-empty list under one key shared by all documents; 1 in 4 sequences spell members of top-level dictionaries as dotted keys; a missing file / unknown extension / truncated document / scalar document as the failing argument), 15% cfgutil.Collector directly (Add(cfg,nil)/Add(nil,nil)/Add(nil,err) histories, GetOptions). Option sets: PathSep(\".\") +- one of {ReplaceValues, ReplaceArrValues, AppendValues, PrependValues} +- VarExp (6% of key=value cases, never with ReplaceValues; primitive-valued references to keys of the initial config only; half of them with a Resolve option that alone knows ${ext}); initial config nil or a small dictionary. After EVERY Set/Add the config is read back and compared. Non-trivial = at least two accepted settings before the first failure whose keys are equal or one a path prefix of the other (files/collector: share a top-level key or both carry a list); distinct = distinct (mode, option set, autoBool, initial config, argument texts)."
 }
 
 func (check) Assumptions() []string {
@@ -372,6 +372,18 @@ func genArgs(r *rand.Rand, varexp int) []kvArg {
 		}
 		used = append(used, key)
 		bad := i == failAt || (failAt >= 0 && i > failAt && r.Intn(4) == 0)
+		if !bad && i > 0 && r.Intn(6) == 0 {
+			// the identical argument string once more (adjacent or not): it must
+			// be merged once per occurrence
+			if c := out[r.Intn(len(out))]; c.intent != "malformed" {
+				used[len(used)-1] = c.text
+				if j := strings.Index(c.text, "="); j >= 0 {
+					used[len(used)-1] = c.text[:j]
+				}
+				out = append(out, c)
+				continue
+			}
+		}
 		switch k := r.Intn(100); {
 		case bad:
 			v, tag := genMalformedValue(r, varexp)
@@ -928,7 +940,15 @@ func runKV(res *harness.R, r *rand.Rand, idx int, verbose bool) {
 	mo := &monitor{res: res, st: st, desc: desc}
 	mo.prime(cfgPtr)
 	var effective []string
+	seenAt := map[string]int{}
 	for i, a := range args {
+		prevAt, repeated := seenAt[a.text]
+		seenAt[a.text] = i
+		before := ""
+		if repeated && !st.failed {
+			st.refresh()
+			before = st.canon
+		}
 		var ret error
 		panicked, pv, where := harness.Safe(func() { ret = set(a.text) })
 		res.Eval(1)
@@ -959,6 +979,18 @@ func runKV(res *harness.R, r *rand.Rand, idx int, verbose bool) {
 				res.SetAdd("malformed_shape", a.syntax)
 			} else if kind == "value" {
 				res.SetAdd("syntax", a.syntax)
+			}
+			if repeated && (kind == "value" || kind == "bare") {
+				shape := "adjacent"
+				if prevAt < i-1 {
+					shape = "separated"
+				}
+				res.Ev("repeated_args", 1)
+				st.refresh()
+				if st.canonErr == nil && st.canon != before {
+					res.Ev("repeated_args_that_matter", 1)
+					res.SetAdd("repeat_matters", shape+"/"+os.pol.String())
+				}
 			}
 		} else if a.intent == "malformed" {
 			res.SetAdd("post_failure", "malformed")
@@ -1134,9 +1166,36 @@ func runFiles(res *harness.R, r *rand.Rand, idx int, verbose bool) {
 	if r.Intn(10) >= 7 {
 		initTree = gen.TopDict(r, gen.TreeOpts{Depth: 2, Prims: simplePrims}, 2)
 	}
-	n := 1 + r.Intn(5)
+	// the argument sequence: every argument after the first names an EARLIER
+	// path again w.p. 1/3 (adjacent or with other files in between); a repeated
+	// file must be loaded and merged once per occurrence, in order
+	m := 1 + r.Intn(6)
+	seq := []int{0}
+	n := 1
+	for j := 1; j < m; j++ {
+		if r.Intn(3) == 0 {
+			seq = append(seq, seq[r.Intn(len(seq))])
+		} else {
+			seq = append(seq, n)
+			n++
+		}
+	}
 	dotted := r.Intn(4) == 0
 	trees := genDictChain(r, n)
+	if r.Intn(2) == 0 {
+		// every document carries a non-empty list under one shared key (and the
+		// documents differ there): append/prepend add it once per occurrence,
+		// the other policies must restore the last occurrence's elements
+		lk := pick(r, []string{"a", "b", "c"})
+		for i, t := range trees {
+			l := model.List()
+			for c := 1 + r.Intn(3); c > 0; c-- {
+				l.A = append(l.A, model.P(simplePrims[r.Intn(len(simplePrims))]))
+			}
+			l.A = append(l.A, model.P(fmt.Sprintf("doc%d", i)))
+			t.Set(lk, l)
+		}
+	}
 	failAt := -1
 	if r.Intn(100) < 40 {
 		failAt = r.Intn(n)
@@ -1198,7 +1257,11 @@ func runFiles(res *harness.R, r *rand.Rand, idx int, verbose bool) {
 		if initTree != nil {
 			it = initTree.String()
 		}
-		return fmt.Sprintf("mode=%s options=%s initial=%s files=[%s]", mode, os_.name(), it, strings.Join(l, " "))
+		var a []string
+		for _, fi := range seq {
+			a = append(a, files[fi].name)
+		}
+		return fmt.Sprintf("mode=%s options=%s initial=%s args=[%s] files=[%s]", mode, os_.name(), it, strings.Join(a, " "), strings.Join(l, " "))
 	}
 	if idx < 2 {
 		res.Sample = desc()
@@ -1246,8 +1309,17 @@ func runFiles(res *harness.R, r *rand.Rand, idx int, verbose bool) {
 	mo := &monitor{res: res, st: st, desc: desc}
 	mo.prime(cfgPtr)
 	var effective []string
-	for i, f := range files {
+	lastAt := map[int]int{}
+	for i, fi := range seq {
+		f := files[fi]
 		path := filepath.Join(dir, f.name)
+		prevAt, repeated := lastAt[fi]
+		lastAt[fi] = i
+		before := ""
+		if repeated && !st.failed {
+			st.refresh()
+			before = st.canon
+		}
 		var ret error
 		panicked, pv, where := harness.Safe(func() { ret = set(path) })
 		res.Eval(1)
@@ -1268,6 +1340,19 @@ func runFiles(res *harness.R, r *rand.Rand, idx int, verbose bool) {
 			if strings.HasPrefix(kind, "fail:") {
 				res.SetAdd("failure", fmt.Sprintf("%s/%s@%d", kind[5:], f.intent, i))
 			}
+			if repeated && kind == "document" {
+				shape := "adjacent"
+				if prevAt < i-1 {
+					shape = "separated"
+				}
+				res.Ev("repeated_path_loads", 1)
+				st.refresh()
+				if st.canonErr == nil && st.canon != before {
+					// loading the same path again changes the expected config
+					res.Ev("repeated_path_loads_that_matter", 1)
+					res.SetAdd("repeat_matters", shape+"/"+os_.pol.String())
+				}
+			}
 		} else {
 			res.SetAdd("post_failure", f.intent)
 		}
@@ -1279,7 +1364,7 @@ func runFiles(res *harness.R, r *rand.Rand, idx int, verbose bool) {
 	}
 	mo.checkString(fv, cfgPtr)
 	var k strings.Builder
-	fmt.Fprintf(&k, "%s|%s|%v", mode, os_.name(), initTree)
+	fmt.Fprintf(&k, "%s|%s|%v|%v", mode, os_.name(), initTree, seq)
 	for _, f := range files {
 		fmt.Fprintf(&k, "|%s:%s:%s", f.name, f.intent, f.content)
 	}
